@@ -562,6 +562,11 @@ class StdVectorBase : private Alloc {
   SizeType &msize() noexcept { return _size; }
   SizeType &mcapacity() noexcept { return _capa; }
   void setSize(SizeType s) noexcept { _size = s; }
+  /// Set size and capacity of a vector owning the dynamic storage it has just received
+  void setDynSizeAndCapacity(SizeType s, SizeType c) noexcept {
+    _size = s;
+    _capa = c;
+  }
 
   iterator dynStorage() const noexcept { return _storage; }
 
@@ -776,6 +781,11 @@ class SmallVectorBase : private Alloc {
   /// Access to 'real' capacity member reference. No need to check for small state here, this method is only called
   /// for large state vectors.
   SizeType &mcapacity() noexcept { return _capa; }
+  /// Set size and capacity of a vector owning the dynamic storage it has just received (large state, no encoding)
+  void setDynSizeAndCapacity(SizeType s, SizeType c) noexcept {
+    _size = s;
+    _capa = c;
+  }
 
   iterator dynStorage() const noexcept { return _storage.dyn(); }
 
@@ -982,9 +992,17 @@ class DynamicVector : public DynamicVectorBaseTypeDispatcher<T, Alloc, SizeType,
   template <class OAlloc, class OSizeType, bool OWithInlineElems>
   void swap2_impl(DynamicVector<T, OAlloc, OSizeType, OWithInlineElems> &o) noexcept(is_swap_noexcept<T>::value) {
     if (this->canSwapDynStorage(o)) {
+      // read both sizes and capacities before touching anything: once the capacity words are exchanged, a SmallVector
+      // cannot tell any more from its words alone which one holds its size
+      const SizeType mySize = this->size(), myCapa = this->capacity();
+      const OSizeType oSize = o.size(), oCapa = o.capacity();
+      SizeType newSize = mySize, newCapa = myCapa;
+      OSizeType oNewSize = oSize, oNewCapa = oCapa;
+      swap_sizetype(newSize, oNewSize);
+      swap_sizetype(newCapa, oNewCapa);
       this->swapDynStorage(o);
-      swap_sizetype(this->mcapacity(), o.mcapacity());
-      swap_sizetype(this->msize(), o.msize());
+      this->setDynSizeAndCapacity(newSize, newCapa);
+      o.setDynSizeAndCapacity(oNewSize, oNewCapa);
     } else {
       swap_deep(this->begin(), this->size(), o.begin(), o.size());
       // exchange the sizes through setSize: an inline SmallVector does not store its size as a plain word
